@@ -39,15 +39,26 @@ for d in sorted(glob.glob(os.path.join(here, "seeded", "*-*"))):
             "how": "tools_try_seed.sh: fresh scratch worktree of /repo HEAD, demo compiled and run before and after `git apply patch.diff`, full suite (cmake, 159 tests) built and run with the change",
         },
         "check_run": {
-            "command": "./check %s --tier quick  (against the patched scratch worktree via VERIF_REPO; APPLY_TO_REPO=1 applies the patch to /repo itself and reverts it afterwards)" % prop,
+            "command": "./check %s --tier quick  (against the patched scratch worktree via VERIF_REPO; APPLY_TO_REPO=1 applies the patch to /repo itself and reverts it afterwards)" % extra.get("checked_with", prop),
             "exit_code": int(rc) if rc is not None else None,
             "caught": caught,
             "first_violation": detail,
         },
     }
+    others = {}
+    for ol in sorted(glob.glob(os.path.join(d, "verify_C*.log"))):
+        oprop = os.path.basename(ol)[7:10]
+        otext = open(ol).read()
+        m = re.search(r"check rc=(\d+)", otext)
+        ov = re.findall(r"^VIOLATION property=(\S+) replay=(\S+)", otext, re.M)
+        od = re.search(r"detail: (sig=\S+ .{0,300})", otext)
+        others[oprop] = {"command": "./check %s --tier quick (same procedure)" % oprop, "exit_code": int(m.group(1)) if m else None, "caught": bool(m and m.group(1) == "1" and ov), "first_violation": od.group(1).strip() if od else None}
+    if others:
+        meta["other_checks_run"] = others
+    caught_by_other = [k for k, v in others.items() if v["caught"]]
     meta.update({k: v for k, v in extra.items() if k not in ("summary", "origin")})
     json.dump(meta, open(os.path.join(d, "meta.json"), "w"), indent=1)
-    rows.append((sid, prop, meta["breaks"][:150], "caught" if caught else ("MISSED" if rc is not None else "not run"), (detail or "")[:110], extra.get("note", "")))
+    rows.append((sid, prop, meta["breaks"][:150], "caught" if caught else ("caught by " + ",".join(caught_by_other) if caught_by_other else ("MISSED" if rc is not None else "not run")), (detail or "")[:110], extra.get("note", "")))
 with open(os.path.join(here, "seeded", "README.md"), "w") as f:
     f.write("# Seeded changes\n\nEach directory: `patch.diff` (apply with `git -C /repo apply`), `demo.cpp` (fails with the change, passes without), `agent_notes.json` (what the sub-agent reported), `verify.log`, `meta.json`.\n\n")
     f.write("| id | property | change | quick check | first violation | note |\n|---|---|---|---|---|---|\n")
